@@ -1,5 +1,6 @@
 import CobaVerif.Driver.JsonUtil
 import CobaVerif.Model.C01
+import CobaVerif.Driver.C06
 open Lean Coba.J
 
 /-
@@ -184,7 +185,7 @@ def toyGJson : ToyG → Json
 behind when `pre` is given), `spec` is `resultSP`, `hyp` says whether the toy components are
 process-local clean (no evaluator flushes the info channel without clearing it first);
 `model_plain` is the σ-free `run` of phase 1 (it ignores the info channel and copyability). -/
-def handle (req : Json) : Except String Json := do
+def handleToy (req : Json) : Except String Json := do
   let seed ← nat (← field req "seed")
   let envs ← (← arr (← field req "envs")).mapM parseEnv
   let lrns ← (← arr (← field req "lrns")).mapM parseLrn
@@ -208,7 +209,11 @@ def handle (req : Json) : Except String Json := do
   let oldJ := fieldD req "old" Json.null
   let resumed ← if oldJ.isNull then pure Json.null else do
     let oldRecs ← (← arr oldJ).mapM parseRec
+    -- the log was written by an in-process run of the same experiment in this very process: the resumed run starts in
+    -- the process state that run left behind (phase 4: `runResumedPFrom`, process state + un-copyable learners)
+    let σr := stateAfter cp ({ mp := 1, mc := 0, mt := 0 } : Cfg) { assign := [], picks := [] } seed cp.σ0 triples
     pure (obj [("result", resultJson (runResumed c cfg picks seed triples oldRecs)),
+               ("resultP", resultJson (runResumedPFrom cp cfg sched seed σr triples oldRecs)),
                ("tasks", ofList taskJson (resumedTasks oldRecs triples))])
   pure (obj [("model", resultJson (runPFrom cp cfg sched seed σstart triples)),
              ("spec", resultJson (resultSP cp seed triples)),
@@ -222,5 +227,89 @@ def handle (req : Json) : Except String Json := do
              ("resumed", resumed),
              ("model_plain", resultJson (run c cfg picks seed triples)),
              ("spec_plain", resultJson (resultS c seed triples))])
+
+/-! ### phase 4: experiments over the built-in SequentialCB (`seqComps`, Model/C06 as the evaluator) -/
+
+structure SeqEnv where
+  params : Option String
+  chunk : Option Nat
+  inters : Option (List (Coba.C06.Dict (Coba.C06.Fld Coba.C06.Driver.V Coba.C06.Driver.RTab)))   -- none: the read raises
+  batch : Option Nat
+
+structure SeqLrn where
+  params : Option String
+  hasScore : Bool
+  script : List Coba.C06.Driver.Entry
+
+structure SeqVal where
+  params : Option String
+  seed : Option Nat
+  cfg : Coba.C06.Config
+
+def parseSeqEnv (j : Json) : Except String SeqEnv := do
+  let ij := fieldD j "inters" Json.null
+  let inters ← if ij.isNull then pure none else do
+    pure (some (← (← arr ij).mapM Coba.C06.Driver.parseDict))
+  pure { params := ← opt str (fieldD j "params" Json.null), chunk := ← opt nat (fieldD j "chunk" Json.null),
+         inters := inters, batch := ← opt nat (fieldD j "batch" Json.null) }
+
+def parseSeqLrn (j : Json) : Except String SeqLrn := do
+  pure { params := ← opt str (fieldD j "params" Json.null), hasScore := ← bool (← field j "has_score"),
+         script := ← (← arr (← field j "script")).mapM Coba.C06.Driver.parseEntry }
+
+def parseSeqVal (j : Json) : Except String SeqVal := do
+  let cj ← field j "cfg"
+  pure { params := ← opt str (fieldD j "params" Json.null), seed := ← opt nat (fieldD j "seed" Json.null),
+         cfg := { learn := ← Coba.C06.Driver.parseLearn (fieldD cj "learn" Json.null),
+                  eval := ← Coba.C06.Driver.parseEval (fieldD cj "eval" Json.null),
+                  record := ← strList (← field cj "record") } }
+
+def dfltSeqVal : SeqVal := ⟨none, none, { learn := .on, eval := .on, record := [] }⟩
+
+def mkSeqWorld (envs : List SeqEnv) (lrns : List SeqLrn) (vals : List SeqVal) :
+    SeqWorld (Nat × Nat) Coba.C06.Driver.V Coba.C06.Driver.RTab String :=
+  { envParams := fun e => toParams ((envs.getD e ⟨none, none, none, none⟩).params)
+    lrnParams := fun l => toParams ((lrns.getD l ⟨none, false, []⟩).params)
+    valParams := fun v => toParams ((vals.getD v dfltSeqVal).params)
+    chunkKey := fun e => (envs.getD e ⟨none, none, none, none⟩).chunk
+    valSeed := fun v => (vals.getD v dfltSeqVal).seed
+    cfgOf := fun v => (vals.getD v dfltSeqVal).cfg
+    learner := fun l => let L := lrns.getD l ⟨none, false, []⟩; Coba.C06.Driver.scripted L.script L.hasScore
+    init := fun _ => (0, 0)
+    envRows := fun e => match (envs.getD e ⟨none, none, none, none⟩).inters with
+      | some rows => .ok rows
+      | none => .error .raised
+    batch := fun e => (envs.getD e ⟨none, none, none, none⟩).batch }
+
+def seqResultJson (r : Result String (Coba.C06.Row Coba.C06.Driver.V Coba.C06.Driver.RTab)) : Json :=
+  obj [("exp", match r.exp with
+          | some m => Json.arr #[ofNat m.nLrn, ofNat m.nEnv, ofNat m.seed]
+          | none => Json.null),
+       ("envs", tableJson r.envs), ("lrns", tableJson r.lrns), ("vals", tableJson r.vals),
+       ("ints", ofList (fun (x : Key3 × Nat × Coba.C06.Row Coba.C06.Driver.V Coba.C06.Driver.RTab) =>
+          Json.arr #[ofNat x.1.1, ofNat x.1.2.1, ofNat x.1.2.2, ofNat x.2.1, Coba.C06.Driver.rowJson x.2.2]) r.ints)]
+
+/-- request {"seq":true,"seed","envs":[{params,chunk,inters|null,batch}],"lrns":[{params,has_score,script}],
+"vals":[{params,seed,cfg}],"triples","cfg","picks"}: `run (seqComps w)` — the whole Experiment.run over SequentialCB —
+and its spec `resultS (seqComps w)` -/
+def handleSeq (req : Json) : Except String Json := do
+  let seed ← nat (← field req "seed")
+  let envs ← (← arr (← field req "envs")).mapM parseSeqEnv
+  let lrns ← (← arr (← field req "lrns")).mapM parseSeqLrn
+  let vals ← (← arr (← field req "vals")).mapM parseSeqVal
+  let triples ← (← arr (← field req "triples")).mapM parseTriple
+  let cfg ← parseCfg (← field req "cfg")
+  let picks ← natList (fieldD req "picks" (Json.arr #[]))
+  let c := seqComps (mkSeqWorld envs lrns vals)
+  let evs := runEvents c cfg picks seed triples
+  let heap := (List.range lrns.length).map (fun l => Json.arr #[ofNat (evs.2 l).2.1, ofNat (evs.2 l).2.2])
+  pure (obj [("model", seqResultJson (run c cfg picks seed triples)),
+             ("spec", seqResultJson (resultS c seed triples)),
+             ("log", ofList taskJson (evs.1.filterMap Ev.err?)),
+             ("heap", Json.arr heap.toArray),
+             ("chunks", ofList (ofList taskJson) (chunksOf c cfg triples))])
+
+def handle (req : Json) : Except String Json :=
+  if (fieldD req "seq" Json.null).isNull then handleToy req else handleSeq req
 
 end Coba.C01.Driver
